@@ -94,12 +94,7 @@ pub fn run_session(req: &Value) -> Value {
 }
 
 
-/// The same lines through the real executable's prompt (no hooks): what it wrote (both streams, in order) between the
-/// prompt that read line k and the next prompt.  None when a line would not reach the prompt as one line.
-pub fn prompt_chunks(bin: &str, lines: &[String]) -> Option<Vec<Option<Vec<u32>>>> {
-    if bin.is_empty() || lines.iter().any(|l| l.contains('\n') || l.contains('\r') || l.contains(">>> ")) {
-        return None;
-    }
+fn run_prompt(bin: &str, input: &str) -> Option<String> {
     use std::process::{Command, Stdio};
     let mut child = Command::new("sh")
         .arg("-c")
@@ -109,16 +104,55 @@ pub fn prompt_chunks(bin: &str, lines: &[String]) -> Option<Vec<Option<Vec<u32>>
         .stdout(Stdio::piped())
         .spawn()
         .ok()?;
-    let mut input = lines.join("\n");
-    input.push('\n');
     {
         let mut stdin = child.stdin.take()?;
         let _ = stdin.write_all(input.as_bytes());
     }
     let out = child.wait_with_output().ok()?;
-    let text = String::from_utf8_lossy(&out.stdout).to_string();
-    let mut parts: Vec<&str> = text.split(">>> ").collect();
-    // before the first prompt nothing is written
+    Some(String::from_utf8_lossy(&out.stdout).to_string())
+}
+
+/// What the executable writes before it reads its first line (a banner, if it has one) and what it writes each time it
+/// asks for a line (the prompt), learned from the executable itself: its output on an empty input is banner + prompt, on
+/// one empty line the same followed by whatever an empty line makes it write and the prompt again.  None when that does not hold (no prompt at all, or output that differs from
+/// run to run): the sessions are then not bound to the executable, which is counted and is not an alarm.
+fn prompt_marker(bin: &str) -> Option<(String, String)> {
+    static CACHE: std::sync::OnceLock<Option<(String, String)>> = std::sync::OnceLock::new();
+    CACHE
+        .get_or_init(|| {
+            // on an empty input: banner lines (each ended by a line feed), then the prompt (not ended by one)
+            let out0 = run_prompt(bin, "")?;
+            let cut = out0.rfind('\n').map(|i| i + 1).unwrap_or(0);
+            let (banner, prompt) = (out0[..cut].to_string(), out0[cut..].to_string());
+            // on one empty line: the same, whatever an empty line makes it write, and the prompt again
+            let out1 = run_prompt(bin, "\n")?;
+            if prompt.trim().is_empty() || !out1.starts_with(out0.as_str()) || !out1.ends_with(prompt.as_str()) || out1.len() < out0.len() + prompt.len() {
+                return None;
+            }
+            Some((banner, prompt))
+        })
+        .clone()
+}
+
+/// The same lines through the real executable's prompt (no hooks): what it wrote (both streams, in order) between the
+/// prompt that read line k and the next prompt.  None when a line would not reach the prompt as one line.
+pub fn prompt_chunks(bin: &str, lines: &[String]) -> Option<Vec<Option<Vec<u32>>>> {
+    if bin.is_empty() {
+        return None;
+    }
+    let (banner, prompt) = prompt_marker(bin)?;
+    if lines.iter().any(|l| l.contains('\n') || l.contains('\r') || l.contains(prompt.as_str())) {
+        return None;
+    }
+    let mut input = lines.join("\n");
+    input.push('\n');
+    let text = run_prompt(bin, &input)?;
+    let rest = match text.strip_prefix(banner.as_str()) {
+        Some(r) => r,
+        None => return Some(lines.iter().map(|_| None).collect()),
+    };
+    let mut parts: Vec<&str> = rest.split(prompt.as_str()).collect();
+    // before the first prompt nothing more is written
     let first = if parts.is_empty() { "" } else { parts.remove(0) };
     let mut chunks: Vec<Option<Vec<u32>>> = Vec::new();
     for k in 0..lines.len() {
